@@ -139,6 +139,16 @@ func cmdChkTrees(args []string) {
 				edits = nameEdits(r, c)
 			}
 		}
+		if (mode == "3" || mode == "types") && i%3 == 1 {
+			// every declared variable is first used where any type fits (the value of a transaction-metadata entry), before the
+			// statements that need it to have one particular type: a verdict about a variable must be taken use by use
+			pre := []any{}
+			for _, d := range c.Decls {
+				name := fmt.Sprint(d.(J)["name"])
+				pre = append(pre, J{"k": "call", "name": "set_tx_meta", "args": jl(eStr("pre_"+name), eVar(name))})
+			}
+			c.Stmts = append(pre, c.Stmts...)
+		}
 		if c.Decls == nil {
 			c.Decls = []any{}
 		}
